@@ -1,6 +1,6 @@
 #!/bin/bash
 # tools/runall.sh [quick|thorough] [ids...] : run registered checks sequentially, print one line each
-cd /verif
+cd "$(dirname "$0")/.."
 tier=${1:-quick}; shift
 ids=${@:-$(python3 -c "import json;print(' '.join(c['property_id'] for c in json.load(open('MANIFEST.json'))['checks']))")}
 for i in $ids; do
